@@ -3,7 +3,7 @@
   (literal words over a safe alphabet, single quotes, simple commands, lists, `&&` `||` `|` `!`
   `&`, subshell, block), every printer option except KeepPadding.
 -/
-import ShVerif.Proofs.L4
+import ShVerif.Proofs.L4Parse
 namespace ShVerif.Props.C01
 open ShVerif ShVerif.L4
 
@@ -95,5 +95,122 @@ theorem roundtrip_fails_singleLine : ¬ roundtrip_statement := by
   have := singleLine_output_rejected
   rw [hf'] at this
   cases this
+
+
+/-! ## `Prints`: the concrete syntaxes of a tree, and the parser on them
+
+  `Prints t b` says that `b` is *a* concrete syntax of the tree `t`: `b` is the rendering of a list
+  of pieces (words, operators, layout) in which no piece glues with its neighbour (`lexChain`),
+  and whose token sequence is that of a valid layout of a tree with the same norm as `t` — any
+  choice of `;` / newline separators, blanks, tabs, escaped newlines, blank lines, optional
+  newlines after `(`, `{`, `&&`, `||`, `|`.  It does not mention the printer or its options. -/
+
+def Prints (t : File) (b : Bytes) : Prop :=
+  ∃ (ps : List Piece) (nl0 : Bool) (lt : LStmts),
+    b = render ps ∧ lexChain ps = true ∧ lt.valid = true ∧
+    expect false ps = nlT nl0 ++ (lt.toks ++ [.eof]) ∧ lt.norm = t.norm
+
+/-- The parser half of the round trip, for every language variant: any concrete syntax of `t`
+    (not only the layouts today's printer chooses) parses to a tree with the same norm. -/
+theorem parse_of_Prints (l : Lang) (t : File) (b : Bytes) (h : Prints t b) :
+    ∃ t', parse l b = .ok t' ∧ t'.norm = t.norm := by
+  obtain ⟨ps, nl0, lt, rfl, hc, hv, he, hn⟩ := h
+  have hm := lexAll_pieces ps hc
+  rw [he] at hm
+  obtain ⟨f, h1, h2⟩ := parseToks_layout lt hv nl0 (lexAll (render ps)) (lexAll_line _) hm
+  exact ⟨f, h1, by rw [h2, hn]⟩
+
+/-- Lexing a well-formed word printed on its own gives the word back (positions aside, adjacent
+    literals merged): the word case of "any word used as a command argument printed on its own",
+    for every option set. -/
+theorem roundtrip_word (o : Opts) (w : Word) (hw : w.wf = true) (b : Bytes) (hp : printWord o w = .ok b) :
+    ∃ parts stop, lexWord b ⟨0, 1, 1⟩ .idle [] = .done parts stop [] ∧ normParts parts = w.norm := by
+  obtain ⟨pos, hpos⟩ := Word.wf_pos hw
+  have hne := Word.wf_parts_ne hw
+  unfold printWord at hp
+  split at hp
+  · cases hp
+  · rw [hpos] at hp
+    simp only at hp
+    have hb : b = wordBytes w.parts := by
+      cases hparts : w.parts with
+      | nil => exact absurd hparts hne
+      | cons wp rest =>
+        have hpl : wp.pos.line = pos.line := by
+          simp only [Word.pos?, hparts, List.head?_cons, Option.map_some, Option.some.injEq] at hpos
+          rw [← hpos]
+        have hI : Inv 0 (({ (P.init o) with line := pos.line } : P).word w) :=
+          Inv.word (n := 0) (p := { (P.init o) with line := pos.line }) ⟨rfl, rfl⟩ w hw
+        rw [hI.finish] at hp
+        simp only [Except.ok.injEq] at hp
+        rw [← hp]
+        simp only [P.word, P.wordParts, hparts, hpl, Nat.lt_irrefl, decide_false, Bool.and_false, Bool.false_eq_true,
+          ↓reduceIte]
+        have hout : ∀ (q : P) (wps : List WordPart), (q.wordPartsLoop wps).out = q.out := by
+          intro q wps
+          induction wps generalizing q with
+          | nil => rfl
+          | cons x xs ih =>
+            unfold P.wordPartsLoop
+            rw [ih]
+            cases x <;> rfl
+        simp [hout, P.init, render, Piece.bytes]
+    subst hb
+    obtain ⟨res, stop, h1, h2⟩ := lexWord_parts w.parts (Word.wf_parts hw) [] rfl ⟨0, 1, 1⟩ .idle [] (by simp [LexMode.notSgl])
+    refine ⟨res, stop, by simpa using h1, ?_⟩
+    rw [normParts_eq, h2]
+    simp [pend, Word.norm, normParts_eq]
+
+
+/-! ## Stated, not proved
+
+  The printer half of the round trip and two parser facts.  They are definitions, not theorems:
+  nothing below is claimed.  `print_in_Prints_statement` carries the two side conditions that
+  modelling showed to be necessary; on every run the `specrt` ops check it by execution on the
+  generated in-fragment inputs (model and Go code side by side). -/
+
+/-- the printer half: what today's printer writes is a concrete syntax of the tree -/
+def print_in_Prints_statement : Prop :=
+  ∀ (o : Opts) (f : File) (b : Bytes), f.wf = true → posMono f → (o.singleLine = true → f.stmts.noStale = true) →
+    printFile o f = .ok b → Prints f b
+
+/-- what `print_in_Prints` and `parse_of_Prints` give together -/
+def roundtrip_partial_statement : Prop :=
+  ∀ (o : Opts) (l : Lang) (f : File) (b : Bytes), f.wf = true → posMono f →
+    (o.singleLine = true → f.stmts.noStale = true) → printFile o f = .ok b →
+    ∃ f', parse l b = .ok f' ∧ f'.norm = f.norm
+
+/-- `parse_of_Prints` reduces the second statement to the first -/
+theorem roundtrip_partial_of_print_in_Prints (h : print_in_Prints_statement) : roundtrip_partial_statement :=
+  fun o l f b hw hm hs hp => parse_of_Prints l f b (h o f b hw hm hs hp)
+
+/-- fuel `|tokens|·6 + 8` is never used up, on any input -/
+def fuel_sufficient_statement : Prop :=
+  ∀ (toks : List TokPos) (fuel : Nat), fuel ≥ parseFuelFor toks →
+    parseToksF fuel toks = parseToks toks ∧ parseToks toks ≠ .error .outOfFuel
+
+/-- the parser only builds well-formed trees with non-decreasing lines -/
+def parse_WF_statement : Prop :=
+  ∀ (l : Lang) (b : Bytes) (f : File), parse l b = .ok f → f.wf = true ∧ posMono f
+
+/-- the SingleLine witness is excluded by `noStale`, as it must be -/
+example : singleLineWitness.stmts.noStale = false := by decide +kernel
+
+/-- the hypotheses of the partial statement are satisfiable: `a b; ( c && d ) | { e; }` -/
+example : ∃ f, parse .bash (bytesOfString "a b; ( c && d ) |\n{ e; }\n! 'x y' &\n") = .ok f ∧ f.wf = true ∧
+    f.stmts.noStale = true := by
+  cases h : parse .bash (bytesOfString "a b; ( c && d ) |\n{ e; }\n! 'x y' &\n") with
+  | error e =>
+    have : isSyntaxError (parse .bash (bytesOfString "a b; ( c && d ) |\n{ e; }\n! 'x y' &\n")) = false ∧
+        (match parse .bash (bytesOfString "a b; ( c && d ) |\n{ e; }\n! 'x y' &\n") with | .ok _ => true | _ => false) = true := by
+      decide +kernel
+    rw [h] at this
+    exact absurd this.2 (by simp)
+  | ok f =>
+    refine ⟨f, rfl, ?_⟩
+    have : (match parse .bash (bytesOfString "a b; ( c && d ) |\n{ e; }\n! 'x y' &\n") with
+        | .ok f => f.wf && f.stmts.noStale | _ => false) = true := by decide +kernel
+    rw [h] at this
+    simpa using this
 
 end ShVerif.Props.C01
